@@ -7,7 +7,7 @@
   All theorems quantify over every batch shape (any rank, any sizes incl. 0), every feature shape and every
   index of the stated grammar; none is a finite enumeration.
 -/
-import TdVerif.Lemmas.C03Names
+import TdVerif.Lemmas.C03NamesAdv
 
 namespace TdVerif.Props.C03
 open TdVerif.C03 TdVerif.C03.TorchSpec TdVerif.C03.Td
@@ -467,6 +467,22 @@ theorem setitem_collection_missing_key (td : TD) (ibs : Shape) (items : List Ix)
     cases setIndex (td.bs ++ sh.drop ibs.length) items sh <;> rfl
   · simp only [hp, Bool.false_eq_true, if_false, bind, Except.bind]
 
+/-- **Nested entries in a collection value.** `td[idx] = TensorDict({key_of_nested_entry: child})`: `__setitem__` first handles the
+batch of the value — for the child that is `childBatch` against torch's shape (equal: untouched; trailing: expanded with its
+leaves; otherwise `value.batch_size = indexed_bs`, which gives a child with fewer batch dims the new batch size if its leaves
+allow it and else requires its batch to start with the new one) — and then runs the very same `__setitem__` on the nested
+tensordict with the converted index; there `setitem_collection_spec` applies again with torch's shape followed by the nested
+entry's extra batch dims (`leaf_index_commutes`). -/
+theorem setitem_collection_nested_spec (td : TD) (items : List Ix) (R : IndexResult) (vb cbx : Shape) (j : Nat) (nd : Nested)
+    (entries : List VEntry) (hn : noEll items = true) (h : index td.bs items = .ok R) (hj : td.nested[j]? = some nd) :
+    setitemCollNested td (.tuple items) vb j cbx entries =
+      (match childBatch vb R.shape cbx entries with
+       | .error e => .error e
+       | .ok (k, cb) =>
+         (setitemColl { bs := td.bs ++ nd.extra, names := none, leaves := nd.leaves, nested := [] } (.tuple items) false cb
+            (childEntries k vb R.shape entries)).map (dropWritten k)) :=
+  setitemCollNested_spec td items R vb cbx j nd entries hn h hj
+
 /-! #### `_SubTensorDict` (`td._get_sub_tensordict(idx)`; the object `__setitem__` uses for keys missing from the destination) -/
 
 /-- **A sub-tensordict has torch's batch size and sees torch's selection.** For an Ellipsis-free tuple index torch accepts on the
@@ -542,11 +558,20 @@ theorem src_rank (dims : Shape) (items : List Ix) (R : IndexResult) (h : index d
 
 `_get_names_idx` after the fix: commit "one name per dim of an advanced-indexed result": index arrays are replaced, as in
 `_getitem_batch_size`, by the dims of their broadcast shape (in place when adjacent, in front when separated).
-Proved for ALL indices: the lookups never fail and there is exactly one name per dim of the result (`names_one_per_dim`,
-the coherence the old code violated — the former `names_follow_index_counterexample` is now an `example` of the theorem).
-Proved for basic indices: WHICH name every dim carries (`names_follow_index_partial`). Not proved: which names an advanced
-result carries (block named after the indexed dim for a single index array, `None` otherwise) — a convention pinned by the
-repo test `test_index_tensor_nd_names`, compared by the correspondence, not derived from torch (which has no names here). -/
+Proved for ALL Ellipsis-free tuple indices torch accepts (`names_follow_index`): the result names are `namesSpec P B names nm` —
+every sliced dim keeps its name, every new dim is `None`, ints and index arrays drop the names of the dims they take, and the
+broadcast dims sit exactly where torch puts them, all carrying one name `nm`. What `nm` is (the indexed dim's name for a single
+index array — pinned by the repo test `test_index_tensor_nd_names` —, `None` for a mask or several arrays) is the library's
+convention: torch has no names for advanced indexing, so there is nothing to prove it against; the correspondence compares it.
+Corollaries: one name per result dim (`names_one_per_dim`), the basic case without any convention (`names_follow_index_basic`).
+The former `names_follow_index_counterexample` (4 names for 3 dims) is now an `example` of the theorem. -/
+
+/-- **Names follow the index.** (full statement; replaces the former `_partial` + counter-example) -/
+theorem names_follow_index (names : Names) (bs : Shape) (items : List Ix) (R : IndexResult)
+    (hn : noEll items = true) (hlen : names.length = bs.length) (h : index bs items = .ok R) :
+    ∃ P B nm, walk (bs.length - specified items) bs items = .ok P ∧ broadcastAll (advShapes P) = some B ∧
+      namesIdx (some names) bs.length (.tuple items) = .ok (normNames (namesSpec P B names nm)) :=
+  namesIdx_spec names bs items R hn hlen h
 
 /-- **One name per dim of the result.** For every Ellipsis-free tuple index torch accepts on the batch shape with result `R` —
 basic or advanced, any number of index arrays, adjacent or not, `None` anywhere, masks of any rank, lone masks — `_get_names_idx`
@@ -556,10 +581,10 @@ theorem names_one_per_dim (names : Names) (bs : Shape) (items : List Ix) (R : In
     ∃ nm, namesIdx (some names) bs.length (.tuple items) = .ok nm ∧ ∀ l, nm = some l → l.length = R.shape.length :=
   namesIdx_length names bs items R hn hlen h
 
-/-- **Names follow the index (basic indices).** For every Ellipsis-free tuple of ints, 0-d integer tensors, slices and
+/-- **Names follow the index, basic indices** (no convention involved). For every Ellipsis-free tuple of ints, 0-d integer tensors, slices and
 `None`s accepted on the batch shape, `_get_names_idx` returns exactly the names torch's plan induces: a selected dim loses
 its name, a sliced dim keeps it, a new dim gets `None` (and `None` overall when no name is left). -/
-theorem names_follow_index_partial (names : Names) (bs : Shape) (items : List Ix) (R : IndexResult)
+theorem names_follow_index_basic (names : Names) (bs : Shape) (items : List Ix) (R : IndexResult)
     (hb : basicNoEll items = true) (hlen : names.length = bs.length) (h : index bs items = .ok R) :
     ∃ P, walk (bs.length - specified items) bs items = .ok P ∧
       namesIdx (some names) bs.length (.tuple items) = .ok (normNames (pieceNames P names)) ∧
@@ -590,7 +615,7 @@ theorem names_follow_index_partial (names : Names) (bs : Shape) (items : List Ix
 
 /-- **Reads with dim names.** `getitem_tuple_eq_torch` needs no "unnamed" hypothesis (the lookups of `_get_names_idx` never
 run out of range on an index torch accepts: `namesIdx_ok`); for basic indices the names of the result are moreover the ones of
-`names_follow_index_partial`. Instance for a named tensordict: -/
+`names_follow_index`. Instance for a named tensordict: -/
 theorem getitem_tuple_eq_torch_named (td : TD) (names : Names) (items : List Ix) (R : IndexResult)
     (hn : noEll items = true) (hnames : td.names = some names) (hlen : names.length = td.bs.length)
     (h : index td.bs items = .ok R) :
